@@ -29,6 +29,10 @@ func ParseErc20Lock(erc20list []ERC20Token, rawEthTx []byte) (*LockErcRequest, e
 	if err != nil {
 		return ercParams, err
 	}
+	// a contract creation has no receiver
+	if ethTx.To() == nil {
+		return ercParams, errors.New("Token not supported")
+	}
 	token, err := GetToken(erc20list, *ethTx.To())
 	if err != nil {
 		return ercParams, err
